@@ -246,7 +246,7 @@ def kani_replay(crate_dir, harness, features=None, keep_dir=None, unwind_timeout
                 with open(pth, "w") as fh:
                     fh.write(txt.replace("../../../cache/", CACHE + "/"))
         tdir = os.path.join(scratch, "target")
-        cmd = ["cargo", "kani", "--target-dir", tdir, "-Z", "unstable-options", "-Z", "concrete-playback",
+        cmd = ["cargo", "kani", "--target-dir", tdir, "-Z", "unstable-options", "-Z", "concrete-playback", "-Z", "stubbing",
                "--concrete-playback=print", "--harness-timeout", "%ds" % unwind_timeout,
                "--harness", harness, "--exact"]
         if features:
